@@ -281,13 +281,16 @@ mod axv_types {
     #[kani::proof]
     fn arith_rem_no_panic() { let a = any_scalar(); let b = any_scalar(); let _ = a.rem(&b); }
 
-    //@ob [C05:arith.int_small_exact] level=proved text="add/sub/mul of 32-bit integers (no overflow possible in the promoted width for add/sub) equal the mathematical result"
+    //@ob [C05:arith.int_small_exact] level=proved text="add of any two 32-bit integers and sub of any two (except UInt-UInt, see arith.sub.no_panic) equal the mathematical result"
     #[kani::proof]
     fn arith_int_small_exact() {
         let a = any_int32();
         let b = any_int32();
         match a.add(&b) { Ok(r) => assert!(math(&r) == math(&a) + math(&b)), Err(_) => assert!(false) }
-        match a.sub(&b) { Ok(r) => { if r.kind() == DataTypeKind::BigInt { assert!(math(&r) == math(&a) - math(&b)); } } Err(_) => assert!(false) }
+        // UInt - UInt is computed in u64 and can underflow: that case belongs to the recorded finding arith.sub.no_panic
+        if !(a.kind() == DataTypeKind::UInt && b.kind() == DataTypeKind::UInt) {
+            match a.sub(&b) { Ok(r) => assert!(math(&r) == math(&a) - math(&b)), Err(_) => assert!(false) }
+        }
     }
 
     //@ob [C05:arith.non_numeric_is_error] level=proved text="arithmetic with a Null or Bool operand is an error value, never a number"
